@@ -37,6 +37,11 @@ def run(ctx):
     rule_encoders(ctx)
     rule_defaulted(ctx)
     rule_order_and_precision(ctx)
+    # what is serialised parses back to an equal object only if construction already truncated every timestamp to what
+    # the serialiser will write: the truncation pipeline (C15) is a necessary condition of the round trip
+    from . import C15
+    C15.rule_truncate(ctx, rule_id="C01.timestamp-pipeline")
+    C15.rule_property_forward(ctx, rule_id="C01.timestamp-pipeline")
 
 
 # ---------------------------------------------------------------------------
@@ -386,6 +391,34 @@ def rule_encoders(ctx):
     run.check(okp and okg, R, key(rel, fp.qualname, "pretty-sort-key"), "pretty output is no longer ordered by the property index "
               "(or the override is applied without pretty)", file=rel, line=fp.node.lineno, function=fp.qualname,
               expected="if pretty: kwargs.update(item_sort_key=sort_by -> find_property_index(obj, *element))", found="changed")
+    # the only encoder options the library itself sets are layout options; anything else (bigint_as_string, use_decimal,
+    # ignore_nan, namedtuple_as_object, ...) changes the JSON VALUE that is written, so the text parses back to another
+    # object
+    LAYOUT = {"indent", "separators", "item_sort_key"}
+    injected = []
+    kwname = fp.kwarg
+    for c in body_walk(fp.node):
+        if isinstance(c, ast.Call) and isinstance(c.func, ast.Attribute) and norm(c.func.value) == kwname:
+            if c.func.attr == "update":
+                for a in c.args:
+                    if isinstance(a, ast.Dict):
+                        injected += [(k.value if isinstance(k, ast.Constant) else norm(k), c) for k in a.keys]
+                    else:
+                        injected.append((norm(a), c))
+                injected += [(k.arg, c) for k in c.keywords]
+            elif c.func.attr in ("setdefault", "__setitem__") and c.args:
+                injected.append((c.args[0].value if isinstance(c.args[0], ast.Constant) else norm(c.args[0]), c))
+        if isinstance(c, ast.Assign) and isinstance(c.targets[0], ast.Subscript) and norm(c.targets[0].value) == kwname:
+            sl = c.targets[0].slice
+            injected.append((sl.value if isinstance(sl, ast.Constant) else norm(sl), c))
+        if isinstance(c, ast.Call) and dotted(c.func) == "json.dump":
+            injected += [(k.arg, c) for k in c.keywords if k.arg not in (None, "cls")]
+    badopt = [(k_, c_) for k_, c_ in injected if k_ not in LAYOUT]
+    run.check(not badopt, R, key(rel, fp.qualname, "only-layout-options-injected"),
+              "the serializer sets an encoder option that changes the value written, not its layout (%s): what is written no "
+              "longer parses back to an equal object (e.g. integers beyond 2**53 written as strings)"
+              % ", ".join(sorted({str(k_) for k_, _ in badopt})), file=rel, line=badopt[0][1].lineno if badopt else fp.node.lineno,
+              function=fp.qualname, expected="only %s" % sorted(LAYOUT), found=sorted({str(k_) for k_, _ in injected}))
     calls = [c for c in body_walk(ser.node) if isinstance(c, ast.Call) and call_simple_name(c) == "fp_serialize"]
     okf = len(calls) == 1
     if okf:
@@ -504,5 +537,27 @@ def rule_order_and_precision(ctx):
                                   "on output, so a second serialisation differs from the first", file=f, line=line, function=cname,
                                   expected=d.expected, found=d.found)
     run.extra["timestamp_slots"] = n_ts
+    # the order in which the constructor fills the object is the order of compact output and the base of pretty output:
+    # specification table first, then top-level extension properties, then custom properties sorted
+    from ..cfg import ReachingDefs, cfg_of
+    prog = ctx.prog
+    init = prog.func("stix2.base::_STIXBase.__init__")
+    loops = [x for x in body_walk(init.node) if isinstance(x, ast.For) and any(
+        isinstance(c_, ast.Call) and call_simple_name(c_) == "_check_property" for s_ in x.body for c_ in walk_no_nested(s_))]
+    if len(loops) != 1:
+        raise AnalysisError("_STIXBase.__init__: cleaning loop not found")
+    it = loops[0].iter
+    if isinstance(it, ast.Name):
+        g = cfg_of(init)
+        defs = [v for _, v in ReachingDefs(g, init.all_param_names()).reaching(g.node_of(loops[0]), it.id) if isinstance(v, ast.AST)]
+        it = defs[0] if len(defs) == 1 else None
+    okc = isinstance(it, ast.Call) and dotted(it.func) in ("itertools.chain", "chain") and len(it.args) >= 2 \
+        and norm(it.args[0]) == "self._properties" and isinstance(it.args[-1], ast.Call) and call_simple_name(it.args[-1]) == "sorted"
+    run.check(okc, "C01.spec-order", key(init.module.relpath, init.qualname, "construction-order"),
+              "the constructor does not fill the object in the order <specification table>, <top-level extension properties>, "
+              "<custom properties, sorted>: output no longer lists the properties in specification order (a ChainMap / set / "
+              "dict of keyword arguments iterates in another order)", file=init.module.relpath, line=loops[0].lineno,
+              function=init.qualname, expected="itertools.chain(self._properties, ..., sorted(<custom names>))",
+              found=short(it) if it is not None else None)
     run.floor("C01.spec-order", 120)
     run.floor("C01.timestamp-meta", 150)
